@@ -57,7 +57,7 @@ use std::hash::{Hash, Hasher};
 use std::sync::atomic::{AtomicU64, Ordering as AtomicOrdering};
 use std::sync::Mutex;
 use rayon::prelude::*;
-use rpki::uri::{Https, Rsync};
+use rpki::uri::{Https, Rsync, Scheme};
 use rpki_verif::engine::enumerate::{seq_at, seq_count};
 use rpki_verif::{guard, hex, Ctx, Space};
 use serde_json::json;
@@ -246,6 +246,25 @@ fn unary_rsync(fl: &mut Fails, text: &[u8], u: &Rsync, wit: &dyn Fn() -> String,
         if u.path_bytes() != m.path { return Err("path_bytes differs from path".into()) }
         if u.canonical_authority().as_bytes() != lower(m.authority) { return Err(format!("canonical_authority={:?}", u.canonical_authority())) }
         if u.path_is_dir() != (m.path.is_empty() || m.path.ends_with(b"/")) { return Err("path_is_dir".into()) }
+        // ends_with: every suffix of the path (up to 5 octets), the same with the first octet's case
+        // flipped / dropped, and a few fixed extensions, against the model's path
+        let mut exts: Vec<Vec<u8>> = vec![b"".to_vec(), b".cer".to_vec(), b"/".to_vec(), b"a".to_vec(), b"A".to_vec(), b"//".to_vec()];
+        for k in 1..=m.path.len().min(5) {
+            let suf = m.path[m.path.len() - k..].to_vec();
+            let mut f = suf.clone(); f[0] ^= 0x20; exts.push(f);
+            let mut longer = vec![b'x']; longer.extend_from_slice(&suf); exts.push(longer);
+            exts.push(suf);
+        }
+        { let mut whole = b"/".to_vec(); whole.extend_from_slice(m.path); exts.push(whole) }   // reaches into the module separator
+        for e in exts {
+            let Ok(es) = std::str::from_utf8(&e) else { continue };
+            if u.ends_with(es) != m.path.ends_with(&e) { return Err(format!("ends_with({es:?}) = {}, but the path is {:?}", u.ends_with(es), s(m.path))) }
+        }
+        // the scheme value of this type
+        let sch = Scheme::Rsync;
+        if !sch.is_rsync() || sch.is_https() || sch.as_str() != "rsync" { return Err("Scheme::Rsync predicates".into()) }
+        if sch.into_string() != format!("{sch}") || sch.into_string() != format!("{}://", sch.as_str()) { return Err(format!("Scheme::into_string() = {:?}", sch.into_string())) }
+        if !m.scheme.eq_ignore_ascii_case(sch.into_string().as_bytes()) { return Err(format!("scheme text {:?} vs Scheme::Rsync {:?}", s(m.scheme), sch.into_string())) }
         Ok(())
     });
     fl.check("C12.rsync.eq.reflexive", wit, || {
@@ -294,6 +313,11 @@ fn unary_https(fl: &mut Fails, text: &[u8], u: &Https, wit: &dyn Fn() -> String,
             return Err(format!("authority={:?} path={:?}", u.authority(), u.path()))
         }
         if u.canonical_authority().as_bytes() != lower(m.authority) { return Err(format!("canonical_authority={:?}", u.canonical_authority())) }
+        if u.path_is_dir() != (m.path.is_empty() || m.path.ends_with(b"/")) { return Err("path_is_dir".into()) }
+        let sch = u.scheme();
+        if sch != Scheme::Https || sch == Scheme::Rsync || sch.is_rsync() || !sch.is_https() || sch.as_str() != "https" { return Err("scheme() predicates".into()) }
+        if sch.into_string() != format!("{sch}") || sch.into_string() != format!("{}://", sch.as_str()) { return Err(format!("Scheme::into_string() = {:?}", sch.into_string())) }
+        if !m.scheme.eq_ignore_ascii_case(sch.into_string().as_bytes()) { return Err(format!("scheme text {:?} vs scheme() {:?}", s(m.scheme), sch.into_string())) }
         Ok(())
     });
     fl.check("C12.https.eq.reflexive", wit, || {
